@@ -1,5 +1,5 @@
 (* C18 — frames and logical files are isolated from one another. Statements only. *)
-From DV Require Import Model.ApiDispatch Proofs.BuilderP Proofs.DataP Model.Data.
+From DV Require Import Model.ApiDispatch Proofs.BuilderP Proofs.DataP Model.Data Proofs.RegP Proofs.FileP Proofs.KeepP Proofs.ContentP.
 
 (* each frame's records are its own rows, numbered from 1, independent of every other frame *)
 Theorem C18_frames : forall o rows recs,
@@ -32,5 +32,36 @@ Example C18_refuted_shared_default_sets :
      end.
 Proof. vm_compute. repeat split. Qed.
 
+(* creation order. The list of logical files only ever grows at its end: an accepted add_logical_file appends the new
+   logical file; every other operation (accepted or rejected) leaves the number of logical files unchanged (it works on one
+   of them in place). So the position of a logical file is its creation rank, whatever its header sequence number. *)
+Theorem C18_logical_files_are_appended : forall ps st o ps' st' out,
+  step ps st o = (ps', st', out) ->
+  (exists h z, b_lfs st' = b_lfs st ++ [{| l_hid := h; l_seq := z; l_ident := [48]; l_fh_origin := None; l_reg := []; l_nofmt := []; l_data := [] |}]
+               /\ exists hh, o = OAddLF (RStr h hh) (RInt z))
+  \/ length (b_lfs st') = length (b_lfs st).
+Proof. exact step_lfs. Qed.
+
+(* ... and a written file is one group of records per logical file IN THAT ORDER, each group opening with the header of its
+   own logical file and holding the sets registered for that logical file only (statement explained in Props/C09.v and
+   Props/C05.v). Hypothesis: no set registered for two logical files — the sharing of known finding D12 is exactly what it
+   excludes. *)
+Theorem C18_api_groups : forall l ps hc w st' bs,
+  let st := snd (run_actions ps b_init l) in
+  write hc st w = (st', OK bs) ->
+  NoDup (concat (map lf_sids (b_lfs st))) ->
+  exists groups,
+    write_file {| sul_seq := w_seq w; sul_vrl := w_vrl w; sul_id := w_ident w |} (concat groups) = OK bs
+    /\ Forall2 (lf_group st') (b_lfs st) groups.
+Proof.
+  intros l ps hc w st' bs st H Hnd.
+  assert (Hi : Inv st) by (apply reachable_inv_actions; split; [apply WriteP.inv_shape_init | apply StructP.inv_struct_init]).
+  assert (Hr : Inv_reg st) by (apply reachable_inv_reg_actions; [split; [apply WriteP.inv_shape_init | apply StructP.inv_struct_init] | apply inv_reg_init]).
+  assert (Hd : Inv_disj st) by (apply reachable_inv_disj_actions; [split; [apply WriteP.inv_shape_init | apply StructP.inv_struct_init] | apply inv_reg_init | apply inv_disj_init]).
+  destruct (write_content hc st w st' bs H Hi Hr Hd Hnd) as (groups & Hw & Hall & _). exists groups. split; assumption.
+Qed.
+
 Print Assumptions C18_frames.
 Print Assumptions C18_lf_records.
+Print Assumptions C18_logical_files_are_appended.
+Print Assumptions C18_api_groups.
